@@ -32,6 +32,7 @@ var c20Sets = [][]string{
 	{"ab", "ba", "bb", "zz"},
 	{"é", "ee", "été", "zz"},
 	{"list", "lists", "zz"},
+	{"Zap", "add", "_sync", "hide"}, // byte order differs from case-folded order
 }
 
 // H_C20_suggest: the diagnostic for an unrecognised or missing command.
